@@ -206,10 +206,12 @@ class CondSpec(SeqSpec):
                 must_wake |= eligible
                 eligible = set()
                 debt = 0
+                multi_in_window = False      # a Broadcast settles everything owed so far
         # only waiters that have left the Locker's Unlock (they are in, or past, the select) count as blocked
         pending = [w for w in ctx_of if w not in returned and w in past_exit]
         if debt > 0 and [w for w in pending if w in eligible]:
-            sig = "lost-wakeup:two-signals-while-two-waiters-between-unlock-and-select" if (multi_in_window and nbroadcast == 0) else "lost-wakeup:other"
+            # the recorded known finding: two wakeups owed at once (since the last Broadcast) to waiters that had not parked
+            sig = "lost-wakeup:two-signals-while-two-waiters-between-unlock-and-select" if multi_in_window else "lost-wakeup:other"
             fails.append((sig, "%d Signal call(s) owed a wakeup to waiters that had released the lock, but waiters %r are still blocked at quiescence (signals=%d, broadcasts=%d)"
                           % (debt, sorted(w for w in pending if w in eligible), nsignals, nbroadcast)))
         if [w for w in pending if w in must_wake]:
